@@ -166,8 +166,18 @@ def run_hint(node, apis, objs, with_descr=True) -> list:
                 box['g'] = beartype(**ck)(f) if ck else beartype(f)
             r = rec(api, 'decor', None, deco)
             if r['status'] == 'ok':
-                for o in objs:
-                    rec(api.replace('decor', 'call'), 'call', o, lambda: box['g'](OBJS[o]))
+                # names that come into existence only AFTER the decoration (genuine forward references), bound to things a
+                # forward reference may legitimately or illegitimately denote; removed again after the calls
+                import typing as _t
+                late = {'C11_LATE_ALIAS': _t.List[int], 'C11_LATE_LITERAL': _t.Literal[1, 2], 'C11_LATE_CLASS': int,
+                        'C11_LATE_VALUE': 5}
+                globals().update(late)
+                try:
+                    for o in list(objs) + list(objs[:2]):          # every object, then again (memoised resolution)
+                        rec(api.replace('decor', 'call'), 'call', o, lambda: box['g'](OBJS[o]))
+                finally:
+                    for k in late:
+                        globals().pop(k, None)
         elif api == 'is_bearable':
             for o in objs[:2]:
                 rec(api, 'is_bearable', o, lambda: is_bearable(OBJS[o], h, **ck))
